@@ -211,6 +211,13 @@ def XT.toBT (bound : Obb K → Option K) : XT K → BT Nat K
 def meshNearest (tri : Nat → V3 K × V3 K × V3 K) (tree : XT K) (p : V3 K) : Option Nat :=
   search (fun f => some (triDist2 (tri f).1 (tri f).2.1 (tri f).2.2 p)) (tree.toBT (fun b => some (b.dist2 p)))
 
+/-- `TriangleMesh::intersectsRay`: the root box is tested first (`if (!root.bounds.intersectsRay) return false`), then the
+descent with the boxes' ray entry distances as bounds; `cost f` = hit parameter of face `f` (`triRay`) -/
+def meshRay (negInf : K) (cost : Nat → Option K) (tree : XT K) (o d : V3 K) : Option Nat :=
+  match tree.box.ray negInf o d with
+  | none => none
+  | some _ => search cost (tree.toBT (fun b => b.ray negInf o d))
+
 /-! ## bounding spheres of two and three points (`Geo::Point::calcBoundingSphere`), centre and radius -/
 def sphere2 (sqrt : K → K) (tol : K) (p0 p1 : V3 K) : V3 K × K :=
   let ctr := V3.sdiv (V3.add p0 p1) 2
